@@ -601,14 +601,21 @@ def second_pass(prop, lines, fams, results, rnd):
                 pkt = gen.hx(b[:n])
                 for cid in _receivers(lines):
                     extra.append(("rtdec %s %s %s %s" % (cid, t[1], " ".join(t[2:-1]), pkt), "rt:" + t[3]))
-    if prop == "C16":
+    if prop in ("C16", "C03", "C04", "C05", "C06", "C07", "C08"):
         # the same call again into a buffer of exactly the reported length, and one byte more
         for l, (o, m, iv, mv) in zip(lines, results):
             t = l.split()
             if t[0] in ("enc", "encr") and o.startswith("ok"):
                 st, n, b = _enc_parts(o)
+                if prop != "C16" and rnd.random() < 0.6:
+                    continue
                 for extra_len, fill in ((0, 0x00), (0, 0xFF), (1, 0xA5)):
                     extra.append((" ".join(t[:-1]) + " " + gen.hx([fill] * (n + extra_len)), "exact-fit:" + t[3]))
+                if prop in ("C04", "C16") and rnd.random() < 0.5:
+                    # buffers that are too short: whatever happens, no success with a wrong length
+                    for short in (n - 1, n - 2, 9, 8, 4, 0):
+                        if 0 <= short < n:
+                            extra.append((" ".join(t[:-1]) + " " + gen.hx([0x3C] * short), "too-short:" + t[3]))
     if prop == "C04":
         k = 0
         for l, (o, m, iv, mv) in zip(lines, results):
